@@ -262,9 +262,10 @@ PROPS = {
     "C11": dict(
         module="Evl.Props.C11",
         theorems=["Evl.C11.conservation_step", "Evl.C11.conservation", "Evl.C11.no_duplication", "Evl.C11.passthrough",
-                  "Evl.C11.no_id_rejected", "Evl.C11.never_gateable_via_broker", "Evl.C11.flush_trigger"],
+                  "Evl.C11.no_id_rejected", "Evl.C11.never_gateable_via_broker", "Evl.C11.flush_trigger",
+                  "Evl.C11.grouping_step", "Evl.C11.grouping"],
         runs=[GATED_RUN, race_run("gated", 15, 300, 100)], oracle_prefixes=["C11"], models=["M6 Gated"],
-        trusted_base=TB_COMMON, assumptions=GATED_ASSUME + ["partial: the per-id grouping/arrival-order clause is checked on the implementation by the Go oracle and holds in the model by construction of addEvent; its Lean refinement theorem is not yet proved"],
+        trusted_base=TB_COMMON, assumptions=GATED_ASSUME + ["grouping / arrival order: proved as a refinement of the per-id queue specification (Evl.Lemmas.GatedSpec) for every history from the empty gate; concurrent senders are serialised by Filter.l (C19 facts + race scenario gated)"],
         rule=GATED_RULE,
     ),
     "C17": dict(
